@@ -25,6 +25,12 @@ def fe_hex(v):
     return "0x%064x" % (v % R)
 
 
+def dev_mbt_only():
+    """Development aid (mutant runs): LIFE_DEV_MBT_ONLY=1 skips the runs that
+    involve the model alone -- they cannot depend on the code under test."""
+    return os.environ.get("LIFE_DEV_MBT_ONLY") == "1"
+
+
 def generate(cfg, env, tier_workers=4, timeout=900, expect_violation=False):
     """Runs LifecycleMC under `cfg`; returns (TlcResult, scenarios)."""
     e = {"VERIF_SEED": str(vlib.seed())}
@@ -193,6 +199,8 @@ def find(scen, name, last=True):
 
 def sizes_mc(ck, tier, workers=8):
     """Exhaustive Sizes run (C01, also quoted by C04/C02 for the compile outcome)."""
+    if dev_mbt_only():
+        return None
     cfg = "SizesMC.cfg" if tier == "thorough" else "SizesMCq.cfg"
     res = vlib.tlc("SizesMC", cfg=cfg, workers=workers, timeout=1500)
     if res.violated:
